@@ -522,24 +522,30 @@ class Slice:
                 out.append(("field", p["l"], tuple(fl), p))
             for e in p["p"]:
                 if isinstance(e, dict) and "index" in e:
-                    work.append(e["index"])
-            work.append(p["l"])
+                    work.append((e["index"], None))
+            work.append((p["l"], tuple(fl) if fl else None))
 
         if isinstance(operand_or_local, int):
-            work.append(operand_or_local)
+            work.append((operand_or_local, None))
         else:
             push_op(operand_or_local)
         defs = self.fn.defs()
         n = 0
         while work and n < max_nodes:
-            l = work.pop()
-            if l in seen:
+            l, read_fields = work.pop()
+            if (l, read_fields) in seen:
                 continue
-            seen.add(l)
+            seen.add((l, read_fields))
             n += 1
             if 1 <= l <= self.fn.arg_count:
                 out.append(("arg", l))
             for df in defs.get(l, ()):
+                if df["partial"] and read_fields:
+                    # field-sensitive: a store to `x.a` is irrelevant for a read of `x.b`
+                    wf = tuple(place_fields(df["dst"]))
+                    k = min(len(wf), len(read_fields))
+                    if wf[:k] != read_fields[:k]:
+                        continue
                 if df["k"] == "call":
                     t = df["t"]
                     cal = callee_of(t)
